@@ -576,6 +576,21 @@ def cyclecheck(ctx):
         io = origin(inner, ia[0])
         okr = okr and 'type_' in io.fields and 'idx' in io.fields and not io.has_arith()
         okr = okr and any('Record' in names for names, adt, oo, d_, oth in option_guards(inner, bb))
+    # each record is searched once: a child that is already done (searched, no cycle through it) is not searched again.
+    # Without that test the search walks every PATH instead of every node: a chain of records with two fields of the
+    # next record type (a 6 kB schema text) takes 2^60 steps
+    skips = bool(rec) and bool(done)
+    for bb, t in rec:
+        g = False
+        for d, si, taken in dominating_switches(inner, bb):
+            if si.get('kind') != 'enum':
+                so = origin(inner, si['op'])
+                ps = table_ids(inner, so)
+                if len(ps) == 1 and ps[0] in done and 'index' in so.flags and taken == ('val', (0,)):
+                    g = True
+        skips = skips and g
+    ctx.ob('CYCLECHECK', 'done-children-skipped', skips, short_loc(inner.span),
+           'the recursion into a record field is guarded by a test of the done table (already searched => not searched again): %s' % skips)
     ctx.ob('CYCLECHECK', 'recurse-into-record-fields', okr, short_loc(inner.span), 'recursion follows record -> record field edges with the field\'s key: %s' % okr)
     # outer: every record node not yet done is searched; error propagated
     oc = [(bb, t) for bb, t in outer.calls() if (t.get('resolved') or t.get('callee')) == inner.id]
